@@ -222,10 +222,7 @@ func init() {
 		})
 		rep.Sample(map[string]any{"phase": "single", "filters": len(filters), "topics": len(topics), "example_filter": filters[len(filters)/2], "example_topic": topics[len(topics)/3]})
 		// phase B: pairs (quick: filters to depth 2 on topics to depth 3; thorough: depth 3) of mixed kinds and clients
-		pf := c01Filters(2)
-		if !c.Quick() {
-			pf = filters
-		}
+		pf := filters // pairs over the full depth-3 filter set in both tiers (deadline-guarded)
 		type kc struct {
 			kind, client string
 			id           int
